@@ -1,9 +1,10 @@
 \* family "eqs" (thorough bounds) with the AS-BUILT switches: the operational model behaves as the pinned code.
+\* (Since the fixes 292c263, 2299815, 3649cfa, 0a28798, 49d7920 landed in /repo only IfStmtSequential is still FALSE.)
 \* No property invariant is listed: each PROG line carries the TLC verdict (model.agrees) and the rows the
 \* as-built model predicts; the harness replays the disagreeing programs on the code (they must fail there too)
 \* and compares the predicted rows with the code's residual (model drift otherwise).
 CONSTANTS Family = "eqs" Tier = "thorough"
-  DivMapped = TRUE SlicesRangeChecked = FALSE LoopIndexRangeChecked = FALSE PartialSubscriptIsRow = FALSE CallFirstOutput = FALSE StepRangeParsed = FALSE RangeStopExact = FALSE IfStmtSequential = FALSE ExploreOptions = FALSE
+  DivMapped = TRUE SlicesRangeChecked = TRUE LoopIndexRangeChecked = TRUE PartialSubscriptIsRow = TRUE CallFirstOutput = TRUE StepRangeParsed = TRUE RangeStopExact = TRUE IfStmtSequential = FALSE ExploreOptions = FALSE
 INIT Init
 NEXT Next
 INVARIANT WellTyped
